@@ -1184,8 +1184,33 @@ Qed.
 
 Theorem oracle_on_model_partial : forall i,
   Forall (wf_schema (fun x => x) (fun x => Some x)) (i_schemas i) -> input_safe i = true ->
-  oracle i (model_obs i) = true.
+  oracle_abc i (model_obs i) = true.
 Proof.
-  intros i Hwf Hs. unfold oracle.
+  intros i Hwf Hs. unfold oracle_abc.
   rewrite (oracle_a_on_model i Hwf), (oracle_b_on_model i), (oracle_c_on_model_partial i Hs). reflexivity.
+Qed.
+
+(* ------------------------------------------------------------------ *)
+(* commit placement                                                    *)
+(* ------------------------------------------------------------------ *)
+(* Full statement (false): the tags a DDL sequence assigns do not depend on where commits are placed between the statements.
+   Refutation in the faithful model: t (a, x) committed; DROP TABLE t; CREATE TABLE t (n, a).  Without a commit in between the
+   kept column a re-uses HEAD's tag (drawn with the seed of its old position: no column before it) and n is seeded with a's
+   kind; with a commit in between both are drawn afresh with the seeds of their new positions.  Any random source that looks at
+   the seed's kinds separates the two (the witness replays on the implementation: known finding
+   tags:recreate-tags-depend-on-commit-placement).  When the kept columns are a prefix of both definitions the seeds coincide;
+   that class is checked by the correspondence (oracle_d) only. *)
+Definition cp_rand (t c : bytes) (ks : list N) (k m : N) (i : nat) : N :=
+  N.of_nat (List.length ks) * 1000 + hd 0 c * 10 + N.of_nat i.
+Definition cp_base : list ddl := [Create [116] [([97], 15); ([120], 2)]; Commit; DropTable [116]].
+Definition cp_new : ddl := Create [116] [([110], 15); ([97], 15)].
+
+Theorem commit_placement_refuted :
+  exists rand_seq sx sy,
+    run rand_seq 8 {| head := []; work := []; other := [] |} (cp_base ++ [cp_new]) = Some sx
+    /\ run rand_seq 8 {| head := []; work := []; other := [] |} (cp_base ++ [Commit; cp_new]) = Some sy
+    /\ list_eqb N.eqb (root_tags (work sx)) (root_tags (work sy)) = false.
+Proof.
+  exists cp_rand. eexists. eexists.
+  split; [vm_compute; reflexivity|]. split; [vm_compute; reflexivity|]. vm_compute. reflexivity.
 Qed.
